@@ -150,7 +150,8 @@ def run_case(idx, rng, tier, ctx):
                     effective.append(f'{e.name}{o}')
                     twice_texts.append((e.name, t2))
                 if t1 != t2:
-                    key = f'{e.name}:not-idempotent:{diff_class(t1, t2)}'
+                    cls = 'identifier-case-only' if t1.lower() == t2.lower() else diff_class(t1, t2)
+                    key = f'{e.name}:not-idempotent:{cls}'
                     viol.setdefault(key, {'key': key, 'msg': f'{e.name}{o}: second application changes the code: '
                                                              f'{first_text_diff(t1, t2)}',
                                           'witness': {'entry': e.name, 'options': o, 'source': wc.text,
